@@ -5,6 +5,9 @@
 //   EMB <id> m=<method> d=<int> k=<int> nm=<brute|vptree|covertree> em=<dense|randomized> N=<int> D=<int>
 //        [width=<double>] [ts=<int>] [cc=<0|1>] [nshift=<double>] [kshift=<double>] [lr=] [maxit=]
 //        [perp=] [theta=] [seed=<int>: srand + shuffle hook reseed before the call] [wd=<sec>]
+//        [log=<mask>: enable (bit set) / disable the levels info=1 warning=2 debug=4 error=8 benchmark=16 of the
+//         Logging singleton before the call; the setting persists; messages go to a counting sink]
+//        (em / nm may be omitted: the library's default_eigen_method / default_neighbors_method objects decide)
 //   X <N*D doubles, sample-major>
 //        tapkee::embed with the eigen callbacks (linear kernel, euclidean distance, features)
 //        -> R <id> OK E <rows> <cols> ... | R <id> EXC <name> | R <id> BADCASE <why>
@@ -15,6 +18,9 @@
 // Output (every line flushed):
 //   C <id>       marker printed BEFORE the call (a crash / hang belongs to it)
 //   R <id> ...   result
+//   P <id> rand=<n> shuf=<n> msgs=<n> defs=<a>/<b>/<c>   after every EMB: draws of std::rand during the call (the
+//                executable defines rand/srand itself and counts), hooked random_shuffle calls, log messages
+//                delivered to the sink, names of the three default_* method objects
 //   T <id>       the in-process watchdog fired; the process exits with code 7
 // Doubles are printed with %a (exact, so that histories can be compared bitwise).
 #include <cmath>
@@ -36,6 +42,79 @@
 using namespace tapkee;
 
 static volatile long g_current_id = -1;
+
+// ---- observation of the process-wide state that outlives a call (allow-list of Equiv_Spec.v) -------------
+// (1) std::rand: the executable defines rand/srand itself (glibc's rand() IS random(); the sequence is the
+//     stock one), so every draw of the library - all its consumers go through std::rand - is counted.
+static unsigned long g_rand_calls = 0;
+extern "C" int rand(void) noexcept
+{
+    ++g_rand_calls;
+    return (int)random();
+}
+extern "C" void srand(unsigned int seed) noexcept
+{
+    srandom(seed);
+}
+// (2) the Logging singleton: a sink that counts what it is given (nothing is printed)
+static unsigned long g_log_msgs = 0;
+class CountingLogger : public LoggerImplementation
+{
+  public:
+    CountingLogger()
+    {
+    }
+    virtual ~CountingLogger()
+    {
+    }
+    virtual void message_info(const std::string& m)
+    {
+        g_log_msgs += 1 + (m.size() & 0);
+    }
+    virtual void message_warning(const std::string& m)
+    {
+        g_log_msgs += 1 + (m.size() & 0);
+    }
+    virtual void message_debug(const std::string& m)
+    {
+        g_log_msgs += 1 + (m.size() & 0);
+    }
+    virtual void message_error(const std::string& m)
+    {
+        g_log_msgs += 1 + (m.size() & 0);
+    }
+    virtual void message_benchmark(const std::string& m)
+    {
+        g_log_msgs += 1 + (m.size() & 0);
+    }
+};
+static void set_log_mask(int mask)
+{
+    Logging& l = Logging::instance();
+    (mask & 1) ? l.enable_info() : l.disable_info();
+    (mask & 2) ? l.enable_warning() : l.disable_warning();
+    (mask & 4) ? l.enable_debug() : l.disable_debug();
+    (mask & 8) ? l.enable_error() : l.disable_error();
+    (mask & 16) ? l.enable_benchmark() : l.disable_benchmark();
+}
+static unsigned shuffle_calls()
+{
+#ifdef TAPKEE_VERIF_SHUFFLE_HOOK
+    return tapkee::verif_shuffle().calls;
+#else
+    return 0;
+#endif
+}
+// (3) the default_* method objects: their names, read after every call
+static std::string default_names()
+{
+    std::string r = std::string(default_eigen_method.name()) + "/" + default_neighbors_method.name() + "/" +
+                    default_computation_strategy.name();
+    for (auto& c : r)
+        if (c == ' ' || c == '\n' || c == '\t')
+            c = '_';
+    return r;
+}
 
 static void on_alarm(int)
 {
@@ -181,6 +260,23 @@ static void run_emb(long id, std::map<std::string, std::string>& kv, const std::
 #endif
     }
     int wd = kv.count("wd") ? atoi(kv["wd"].c_str()) : 20;
+    if (kv.count("log"))
+        set_log_mask(atoi(kv["log"].c_str()));
+    const unsigned long rand0 = g_rand_calls, msgs0 = g_log_msgs;
+    const unsigned shuf0 = shuffle_calls();
+    struct probe_printer
+    {
+        long id;
+        unsigned long rand0, msgs0;
+        unsigned shuf0;
+        ~probe_printer()
+        {
+            // P <id> rand=<draws of std::rand during the call> shuf=<hooked random_shuffle calls> msgs=<log messages>
+            //        defs=<default eigen method>/<default neighbors method>/<default computation strategy>
+            printf("P %ld rand=%lu shuf=%u msgs=%lu defs=%s\n", id, g_rand_calls - rand0, shuffle_calls() - shuf0,
+                   g_log_msgs - msgs0, default_names().c_str());
+        }
+    } probe{id, rand0, msgs0, shuf0};
 
     std::vector<IndexType> idx(N);
     for (int i = 0; i < N; i++)
@@ -333,11 +429,8 @@ int main()
     std::ios::sync_with_stdio(true);
     setvbuf(stdout, nullptr, _IOLBF, 0);
     signal(SIGALRM, on_alarm);
-    Logging::instance().disable_info();
-    Logging::instance().disable_warning();
-    Logging::instance().disable_error();
-    Logging::instance().disable_benchmark();
-    Logging::instance().disable_debug();
+    Logging::instance().set_logger_impl(new CountingLogger);
+    set_log_mask(0);
 
     std::string line;
     while (std::getline(std::cin, line))
